@@ -679,6 +679,9 @@ def run(scn: Dict[str, Any]) -> List[Dict[str, Any]]:
     loop = VLoop()
     env = Env(loop, cfg)
     loop.on_crash = lambda exc: env.rec("loop_crash", s=type(exc).__name__)
+    import taskiq.receiver.receiver as _rr
+    saved_time = _rr.time
+    _rr.time = loop.time  # type: ignore[assignment]     # the worker's wall clock is the scenario's virtual clock as well
     try:
         if cfg.get("via") == "inmem":
             return _run_inmem(scn, cfg, loop, env)
@@ -749,6 +752,7 @@ def run(scn: Dict[str, Any]) -> List[Dict[str, Any]]:
         loop.settle()
         return _play(scn, loop, env, broker, task, finish, request_stop)
     finally:
+        _rr.time = saved_time  # type: ignore[assignment]
         env.closed = True
         env.abort = True
         for h in list(env.body_fut.values()):
